@@ -15,8 +15,13 @@
 (* (builtin feature's own value), "default".                                                    *)
 EXTENDS Naturals, Sequences, FiniteSets, TLC
 
+CONSTANT NoGitRec    \* TRUE: with --no-gitconfig (no gitconfig object at all) a built-in feature named in --features /
+                     \* DELTA_FEATURES still enables the built-in features it contains (the repaired behaviour); FALSE: the
+                     \* names are only pushed (the pinned code)
+
 Builtins == {"dsf", "dh"}           \* diff-so-fancy, diff-highlight: both set the option themselves
-BuiltinNames == Builtins \cup {"nav"}   \* navigate: a builtin feature that does not set the option (a custom section of that name may)
+BuiltinNames == Builtins \cup {"nav", "sbs", "ln"}   \* navigate, side-by-side, line-numbers: built-in features that do not set the option
+BuiltinKids(f) == IF f = "sbs" THEN <<"ln">> ELSE <<>>     \* side-by-side contains `features = line-numbers`
 Rev(s) == [i \in 1..Len(s) |-> s[Len(s) + 1 - i]]
 Contains(s, x) == \E i \in DOMAIN s : s[i] = x
 Children(p, f) == IF f = "A" /\ ~p.noGit THEN p.childA ELSE <<>>    \* the list lives in gitconfig
@@ -29,7 +34,10 @@ Provides(p, f) == IF ~p.noGit /\ f \in p.custom THEN "c_" \o f
 \* The feature deque: index 1 = front.  push_front puts later-gathered features in front;
 \* the lookup walks from the back, so what is gathered first has the highest priority.
 PushFront(d, f) == <<f>> \o d
-GatherBuiltin(d, f) == IF Contains(d, f) THEN d ELSE PushFront(d, f)
+RECURSIVE GatherBuiltin(_, _), GatherBuiltinAll(_, _)
+\* gather_builtin_features_recursively: the feature, then the built-in features it contains
+GatherBuiltin(d, f) == IF Contains(d, f) THEN d ELSE GatherBuiltinAll(PushFront(d, f), BuiltinKids(f))
+GatherBuiltinAll(d, fs) == IF fs = <<>> THEN d ELSE GatherBuiltinAll(GatherBuiltin(d, fs[1]), Tail(fs))
 RECURSIVE GatherRec(_, _, _), GatherAll(_, _, _)
 GatherRec(p, d, f) ==
   LET d1 == IF f \in BuiltinNames THEN GatherBuiltin(d, f) ELSE PushFront(d, f)
@@ -42,12 +50,13 @@ RECURSIVE GatherTop(_, _, _)
 \* top-level lists are gathered without the "already present" test
 GatherTop(p, d, fs) == IF fs = <<>> THEN d ELSE GatherTop(p, GatherRec(p, d, fs[1]), Tail(fs))
 RECURSIVE PushAll(_, _)
-PushAll(d, fs) == IF fs = <<>> THEN d ELSE PushAll(PushFront(d, fs[1]), Tail(fs))
+PushAll(d, fs) == IF fs = <<>> THEN d
+                  ELSE PushAll(IF NoGitRec /\ fs[1] \in BuiltinNames THEN GatherBuiltin(d, fs[1]) ELSE PushFront(d, fs[1]), Tail(fs))
 RECURSIVE GatherFlags(_, _)
 GatherFlags(d, fs) == IF fs = <<>> THEN d ELSE GatherFlags(GatherBuiltin(d, fs[1]), Tail(fs))
 
 \* code order of the command-line flags; ordMain = order in which the [delta] section's flags are met
-FlagOrder == <<"dh", "dsf", "nav">>      \* order of the `if opt.<flag>` tests in gather_features = sorted order of the names
+FlagOrder == <<"dh", "dsf", "ln", "nav", "sbs">>      \* order of the `if opt.<flag>` tests in gather_features = sorted order of the names
 CliFlagSeq(p) == SelectSeq(FlagOrder, LAMBDA f : f \in p.flagsCli)
 FeatureList(p, ordMain) ==
   LET input == CASE p.envMode = "plus"  -> p.envF \o Rev(p.cliF)
@@ -68,7 +77,19 @@ ImplValue(p, ordMain) ==
   ELSE IF ~p.noGit /\ p.main THEN "main"
   ELSE LET d == FeatureList(p, ordMain) IN LookupBack(p, d, Len(d))
 
+\* is the built-in feature line-numbers enabled?
+ImplLn(p, ordMain) == Contains(FeatureList(p, ordMain), "ln")
+
 \* ------------------------------- Obs ---------------------------------------------
+\* "features enabled by features": line-numbers is on whenever it, or side-by-side (which contains it), is named on the
+\* command line / in the environment or given as a flag there; it is off when nothing anywhere names either.
+ToSetS(s) == {s[i] : i \in DOMAIN s}
+CmdNamed(p) == ToSetS(p.cliF) \cup (IF p.envMode = "none" THEN {} ELSE ToSetS(p.envF)) \cup p.flagsCli
+AnyNamed(p) == CmdNamed(p) \cup ToSetS(p.mainF) \cup p.flagsMain \cup ToSetS(p.childA)
+LnMustBeOn(p) == CmdNamed(p) \cap {"sbs", "ln"} # {}
+LnMustBeOff(p) == AnyNamed(p) \cap {"sbs", "ln"} = {}
+LnOK(p, on) == (LnMustBeOn(p) => on) /\ (LnMustBeOff(p) => ~on)
+
 \* priority list (highest first) of one written feature list: last-listed first, each feature
 \* followed by what it enables itself
 RECURSIVE Desc(_, _), PrioList(_, _)
